@@ -48,6 +48,6 @@ def run(ctx):
                  "trees with forward/cross arcs, BV-style); roots outside the graph (panic expected); the three "
                  "flavours run on every scenario; top_sort, is_acyclic and DfsOrder on every graph; "
                  "non-trivial = at least 2 nodes and one arc; distinct = different (graph, scenario)")
-    violations, known = codec.verdict("C14", r, known_matchers=[dfs_order_root])
+    violations, known = codec.verdict("C14", r)
     r.update({"violations": violations, "known": known})
     return r
